@@ -660,6 +660,22 @@ func (fr *Frame) analyze() {
 	fr.debug = map[string][]*ssa.DebugRef{}
 	fr.callOrd = map[ssa.Instruction]string{}
 	counts := map[string]int{}
+	var calls []ssa.Instruction
+	defer func() {
+		// call sites are numbered per callee name in source order (not in SSA block order)
+		sort.SliceStable(calls, func(i, j int) bool {
+			pi, pj := calls[i].Pos(), calls[j].Pos()
+			if pi == token.NoPos || pj == token.NoPos {
+				return pj == token.NoPos && pi != token.NoPos
+			}
+			return pi < pj
+		})
+		for _, in := range calls {
+			name := calleeShortName(in.(ssa.CallInstruction).Common())
+			fr.callOrd[in] = fmt.Sprintf("%s#%d", name, counts[name])
+			counts[name]++
+		}
+	}()
 	for _, b := range fn.Blocks {
 		for _, in := range b.Instrs {
 			if d, ok := in.(*ssa.DebugRef); ok {
@@ -670,10 +686,8 @@ func (fr *Frame) analyze() {
 					fr.debug[obj.Name()] = append(fr.debug[obj.Name()], d)
 				}
 			}
-			if c, ok := in.(ssa.CallInstruction); ok {
-				name := calleeShortName(c.Common())
-				fr.callOrd[in] = fmt.Sprintf("%s#%d", name, counts[name])
-				counts[name]++
+			if _, ok := in.(ssa.CallInstruction); ok {
+				calls = append(calls, in)
 			}
 		}
 		for _, s := range b.Succs {
